@@ -87,6 +87,76 @@ def states_all_reject(pass_, path, limit=60):
     return res
 
 
+
+def _part_at(pat, text, pos):
+    """anchored match of one part at pos, written from the documentation of the part kinds (not nestedmatcher's code):
+    a regular expression (DOTALL) matched at pos — the empty match at the very end included; a balanced group that opens
+    at pos and closes where the depth first returns to zero; 'or': the left alternative if it matches, else the right"""
+    kind = type(pat).__name__
+    if kind == 'RegExPattern':
+        m = re.compile(pat.expr, flags=re.DOTALL).match(text, pos)
+        return None if m is None else m.end()
+    if kind == 'BalancedPattern':
+        if not (0 <= pos < len(text)) or text[pos] != pat.start:
+            return None
+        depth = 0
+        for i in range(pos, len(text)):
+            if text[i] == pat.start:
+                depth += 1
+            elif text[i] == pat.end:
+                depth -= 1
+                if depth == 0:
+                    return i + 1
+        return None
+    if kind == 'OrPattern':
+        e = _part_at(pat.left, text, pos)
+        return e if e is not None else _part_at(pat.right, text, pos)
+    raise AssertionError('unknown part kind ' + kind)
+
+
+def _chain_at(parts, text, a):
+    """all parts one after the other from a: ({name: span}, end) or None"""
+    named, pos = {}, a
+    for part in parts:
+        pat, name = part if isinstance(part, tuple) else (part, None)
+        e = _part_at(pat, text, pos)
+        if e is None:
+            return None
+        if name is not None:
+            named[name] = (pos, e)
+        pos = e
+    return named, pos
+
+
+def peep_expected(cls, arg, text, st):
+    """what peep::a / peep::b must produce at cursor (pos, rule): the rule is tried at pos, and further right as long as
+    its first part matches where the whole rule does not; the candidate is the text with the matched region (a) or the
+    part between the delimiters (b) replaced; None = no candidate from this cursor"""
+    pos = st['pos']
+    if pos >= len(text):
+        return None
+    if arg == 'a':
+        parts, repl = cls.regexes_to_replace[st['regex']]
+        parts = list(parts)
+    else:
+        inner, repl = cls.delimited_regexes_to_replace[st['regex']]
+        front = cls.border_or_space_optional_pattern if text.startswith(',') else cls.border_or_space_pattern
+        back = cls.border_or_space_optional_pattern if text.endswith(',') else cls.border_or_space_pattern
+        parts = [(front, 'delim1')] + list(inner) + [(back, 'delim2')]
+    a = pos
+    while a < len(text):
+        first = parts[0][0] if isinstance(parts[0], tuple) else parts[0]
+        if _part_at(first, text, a) is None:
+            return None
+        ch = _chain_at(parts, text, a)
+        if ch is not None:
+            named, end = ch
+            out = text[:a] + repl + text[end:] if arg == 'a' else text[:named['delim1'][1]] + repl + text[named['delim2'][0]:]
+            return out if out != text else None
+        a += 1
+    return None
+
+
 def explore(ctx):
     from cvise.passes.lines import LinesPass
     from cvise.passes.line_markers import LineMarkersPass
@@ -103,7 +173,8 @@ def explore(ctx):
     rnd = random.Random(ctx.seed + 7)
     cs = Cases()
     ntext = 50 if ctx.quick() else 500
-    texts = [gen_text(rnd) for _ in range(ntext)] + ['', '\n', '()', 'a', '(a)\n', '{{}}', "int a = (1 ? 2 : 3);\n", '0x10,', ' 0xfUL;', '# 1 "x"\n# 2 "y"\nz\n', '#\n42;\n', '# \n\n7 "f"\n', 'a\n  #\n 3\n', ' class a ; class b ; class c ; class d ; k = x;\n']
+    texts = [gen_text(rnd) for _ in range(ntext)] + ['', '\n', '()', 'a', '(a)\n', '{{}}', "int a = (1 ? 2 : 3);\n", '0x10,', ' 0xfUL;', '# 1 "x"\n# 2 "y"\nz\n', '#\n42;\n', '# \n\n7 "f"\n', 'a\n  #\n 3\n', ' class a ; class b ; class c ; class d ; k = x;\n',
+             '(a,', 'f(x, y,', '{1, 22,', 'int a[2] =={1, 2};', ',a', 'x = a ? (b) : c,', 'namespace n {{}}']
     d = os.path.join(ctx.tmp, 'c07')
     os.makedirs(d, exist_ok=True)
     path = os.path.join(d, 'in.c')
@@ -353,8 +424,8 @@ def explore(ctx):
             p = mk(PeepPass, arg)
             sts = []
             st = p.new(path, None)
-            while st is not None and len(sts) < (40 if ctx.quick() else 400):
-                if rnd.random() < (0.15 if ctx.quick() else 0.5):
+            while st is not None and len(sts) < (40 if ctx.quick() and len(text) > 8 else 1000):
+                if len(text) <= 8 or rnd.random() < (0.15 if ctx.quick() else 0.5):
                     sts.append(st)
                 st = p.advance(path, st)
             for st in sts:
@@ -362,6 +433,12 @@ def explore(ctx):
                 ctx.evaluations += 1
                 ctx.count('peep')
                 rep = {'pass': 'peep', 'arg': arg, 'text': text, 'state': st}
+                if arg in 'ab':
+                    want = peep_expected(PeepPass, arg, text, st)
+                    got = out if res == 'OK' else None
+                    if got != want:
+                        viol('bad-edit:peep' if got is not None else 'not-all-offered:peep',
+                             f'peep::{arg} on {text!r} at cursor {st}: produced {got!r}; the rule applied at the first place it matches from the cursor gives {want!r}', rep)
                 if res == 'OK':
                     ctx.nontriv(('peep', arg, text, st['pos'], st['regex']))
                     pq = local_edit(text, out)
